@@ -144,6 +144,9 @@ def placeholders(v, rng):
     if isinstance(v, list):
         out += [[...] + v, v + [...], [...] + v + [...], [...]]
         if v:
+            # more concrete elements than a length constraint may allow, next to a placeholder
+            out += [v + v + [...], [...] + v + v, v + [v[0]] + [...]]
+        if v:
             out += [[...] + v[1:], v[:-1] + [...], [...] * len(v)]
             if len(v) > 2:
                 out.append(v[:1] + [...] + v[2:])
@@ -161,12 +164,16 @@ def placeholders(v, rng):
             for w in placeholders(v[key], rng):
                 out.append({**v, key: w})
     out.append(...)
+    # placeholders in places where only from_native could serve them (nested under free positions)
+    out += [{"k": {...: 5}}, {"k": {"q": ...}}, [{...: ...}], [[1, ..., 2]], {"k": [..., ...]}, {...: 5}, {"k": {...: ...}}]
     return out
 
 
 def gen_pair(rng, hostile=False, prof=PROF):
     """-> (spec, value, vkind).  vkind in complete | partial | perturbed | unconvertible | relaxed_extra |
-    placeholder | zoo | unrelated"""
+    placeholder | zoo | unrelated | contains_hostile"""
+    if hostile and rng.random() < 0.08:
+        return gen_contains_case(rng)
     for _ in range(20):
         spec = gen_spec(rng, prof)
         try:
@@ -197,6 +204,9 @@ def gen_pair(rng, hostile=False, prof=PROF):
             if pos:
                 f, d = rng.choice(pos)
                 bad = rng.choice(UNCONVERTIBLE)
+                if rng.random() < 0.4:
+                    # nested inside an otherwise convertible container (from_native recurses)
+                    bad = rng.choice(([bad], {"k": bad}, [[1, bad]], {"k": [bad]}, [0, {"q": bad}]))
                 if d.endswith("relaxed_extra_key") and rng.random() < 0.6:
                     return spec, f(rng.choice((0, "x", [1], {"q": 1}))), "relaxed_extra"
                 return spec, f(bad), "unconvertible"
@@ -269,3 +279,45 @@ def contains_nan(v, depth=0):
     if isinstance(v, dict):
         return any(contains_nan(k, depth + 1) or contains_nan(x, depth + 1) for k, x in v.items())
     return False
+
+
+def gen_contains_case(rng):
+    """A contains-list whose windows are substitution-hostile: body of 1-3 elements (dicts, relaxed dicts, unions,
+    untyped positions), value = a conforming value in which the matching window (or a neighbour that also looks like
+    a window start) fails *during* substitution: extra key under a relaxed dict, unconvertible member at a free
+    position, partial dicts in front of the real window."""
+    from .spec import mk
+    def d(relaxed, req=True):
+        keys = [("a", mk("int"), not req)]
+        if rng.random() < 0.4:
+            keys.append(("b", mk("str"), True))
+        s = mk("dict")
+        s["keys"] = keys
+        if relaxed:
+            s["relaxed"] = True
+        return s
+    pool = [lambda: d(True), lambda: d(False), lambda: mk("dict", keys=None) | {"keys": None}, lambda: mk("any"),
+            lambda: mk("any", types=[d(True), mk("none")]), lambda: mk("list", form="bare"), lambda: mk("int"),
+            lambda: mk("alias", name="W", target=d(True)), lambda: mk("list", form="typed", type=d(True))]
+    n = rng.choice((1, 2, 2, 3))
+    body = [rng.choice(pool)() for _ in range(n)]
+    spec = mk("list", form="elems", elems=[ELL] + body + [ELL])
+    try:
+        core = [witness(b, rng) for b in body]
+    except Unsat:
+        return spec, [], "contains_hostile"
+    # poison the window
+    bad = rng.choice((OddValue(), (1, 2), {1}))
+    for i, (b, val) in enumerate(zip(body, core)):
+        r = rng.random()
+        if isinstance(val, dict) and r < 0.6:
+            val = dict(val)
+            val["zz_extra"] = rng.choice((2, bad))
+            core[i] = val
+        elif isinstance(val, list) and r < 0.6:
+            core[i] = val + [rng.choice((1, bad))]
+        elif b["k"] == "any" and r < 0.5:
+            core[i] = rng.choice((bad, [bad], {"k": bad}))
+    lead = [rng.choice(({}, {"a": 1}, [], 0, None, {"a": 1, "zz": 2})) for _ in range(rng.choice((0, 1, 1, 2)))]
+    trail = [rng.choice(({}, {"a": 1}, [], 0, None)) for _ in range(rng.choice((0, 0, 1, 2)))]
+    return spec, lead + core + trail, "contains_hostile"
